@@ -151,6 +151,9 @@ func (w *vC03world) withinLimits() bool {
 	return ok
 }
 
+// the retry of a refused SetPeer names a peer the allow list does name
+var vC03nowAllowedPeer bool
+
 func vC03installStubs() (admit []bool) {
 	vC03addN, vC03rmN = 0, 0
 	admits := vBoolSlice(2)
@@ -166,7 +169,10 @@ func vC03installStubs() (admit []bool) {
 	}
 	VerifHook_connLimiter_rmConn = func(cl *connLimiter, ip netip.Addr) { vC03rmN++ }
 	VerifHook_Allowlist_Allowed = func(al *Allowlist, ma multiaddr.Multiaddr) bool { return allowed }
-	VerifHook_Allowlist_AllowedPeerAndMultiaddr = func(al *Allowlist, p peer.ID, ma multiaddr.Multiaddr) bool { return allowedPeer }
+	vC03nowAllowedPeer = false
+	VerifHook_Allowlist_AllowedPeerAndMultiaddr = func(al *Allowlist, p peer.ID, ma multiaddr.Multiaddr) bool {
+		return allowedPeer || vC03nowAllowedPeer
+	}
 	rate.VerifHook_Limiter_Allow = func(r *rate.Limiter, ip netip.Addr) bool { return rateOK }
 	return admits
 }
@@ -217,6 +223,16 @@ func VerifC03dConnLifecycle() {
 	}
 	held := conn.rc.stat()
 	wasAllow := conn.isAllowlisted
+	if wasAllow && vBool() {
+		// the standard scopes, full when the connection was opened, have room again by the time its peer is known
+		// (everybody else left): a transfer to them can now succeed. They hold nothing of this connection yet.
+		vCover("standard-scopes-have-room-again")
+		for i := 0; i < 2; i++ {
+			sc := w.scopes[i]
+			sc.rc.memory, sc.rc.nstreamsIn, sc.rc.nstreamsOut, sc.rc.nconnsIn, sc.rc.nconnsOut, sc.rc.nfd = 0, 0, 0, 0, 0, 0
+			w.rest[i] = sc.rc
+		}
+	}
 	err = conn.SetPeer(vC03peerID)
 	edgesAfterRefusal := 2
 	vAssert(conn.rc.stat() == held, "setpeer-does-not-change-what-the-conn-holds")
@@ -228,6 +244,22 @@ func VerifC03dConnLifecycle() {
 		vAssert(conn.peer == nil, "refused-setpeer-leaves-no-peer")
 		vAssert(w.frame(conn.resourceScope), "refused-setpeer: still charged exactly once")
 		edgesAfterRefusal = len(conn.edges) // asserted last, so that the known finding there masks nothing else on the path
+		if len(conn.edges) > 0 && vBool() {
+			// the caller tries again - the peer's other connections have gone meanwhile, and the retry may name a peer
+			// the allow list does name: whatever the first attempt moved must not be moved, charged or released twice
+			vCover("setpeer-retried-after-refusal")
+			ps := w.scopes[4] // the peer scope: nobody else holds anything in it any more
+			ps.rc.memory, ps.rc.nstreamsIn, ps.rc.nstreamsOut, ps.rc.nconnsIn, ps.rc.nconnsOut, ps.rc.nfd = 0, 0, 0, 0, 0, 0
+			w.rest[4] = ps.rc
+			vC03nowAllowedPeer = vBool()
+			if conn.SetPeer(vC03peerID) == nil {
+				vCover("setpeer-retry-ok")
+				vAssert(len(conn.edges) == 2 && conn.edges[0] == conn.peer.resourceScope, "retried setpeer: edges are peer + system")
+			}
+			vC03nowAllowedPeer = false
+			vAssert(conn.rc.stat() == held, "a retried setpeer does not change what the conn holds")
+			vAssert(w.frame(conn.resourceScope), "a retried setpeer leaves the conn charged exactly once in its edge set, and no scope outside it charged")
+		}
 	} else {
 		vCover("setpeer-ok")
 		if wasAllow && !conn.isAllowlisted {
